@@ -942,7 +942,7 @@ thread_local! {
 }
 fn install_loc_hook() {
     std::panic::set_hook(Box::new(|info| {
-        let loc = info.location().map(|l| format!("{}:{}", l.file().trim_start_matches("/repo/"), l.line())).unwrap_or_default();
+        let loc = info.location().map(|l| format!("{}:{}", l.file().rsplit_once("/repo/").map(|x| x.1).unwrap_or(l.file()), l.line())).unwrap_or_default();
         LAST_LOC.with(|c| *c.borrow_mut() = loc);
     }));
 }
